@@ -342,8 +342,8 @@ pub fn run_zcase(c: &ZCase) -> Result<u64, String> {
                     if l != len {
                         return Err(format!("make_contiguous returned {l} elements, len {len}"));
                     }
-                    if !b.as_slices().1.is_empty() {
-                        return Err("as_slices reports two slices after make_contiguous".into());
+                    if !b.as_slices().1.is_empty() || !b.as_mut_slices().1.is_empty() {
+                        return Err("as_slices / as_mut_slices report two slices after make_contiguous".into());
                     }
                 }
                 ZOp::Drain(s, e, steps) | ZOp::DrainForget(s, e, steps) => {
